@@ -18,11 +18,14 @@ from sim import kit
 from sim.world import World
 
 
+FIXTURES = {"on": True}
+
+
 def _make_server(flags: list[str], root: str) -> Any:
     import mypy.dmypy_server as ds
 
     options = ds.process_start_options(list(flags), allow_sources=False)
-    options.use_builtins_fixtures = True
+    options.use_builtins_fixtures = FIXTURES["on"]
     return ds.Server(options, os.path.join(root, ".dmypy.json"))
 
 
@@ -83,6 +86,10 @@ def history_child(root: str, lib_fixture: str | None, flags: list[str], steps: l
         os.utime(os.path.join(w.lib, "builtins.pyi"), (999_999_000, 999_999_000))
     os.chdir(w.proj)
     _setup_env(w.lib)
+    if prelude and prelude.get("real_typeshed"):
+        FIXTURES["on"] = False
+        os.environ.pop("MYPYPATH", None)
+        prelude = None
     server = None
     results = []
     if prelude:
